@@ -56,6 +56,18 @@ if kind == "dim":
     print(name, "dimension exponents", got, "reference", want)
     if got != want: print("REPRODUCED"); sys.exit(1)
     sys.exit(0)
+if kind == "registry":
+    from sympy.physics.units.systems.si import SI
+    q = getattr(Q, name)
+    try:
+        deps = dimsys_SI.get_dimensional_dependencies(SI.get_quantity_dimension(q))
+        got = [sp.nsimplify(next((v for k, v in deps.items() if str(k.name) == b), 0)) for b in BASE]
+        ok = got == dimv(q) and SI.get_quantity_scale_factor(q) == q.scale_factor
+        print(name, "registry dimension exponents", got, "own", dimv(q), "registry scale", SI.get_quantity_scale_factor(q), "own", q.scale_factor)
+    except Exception as e:
+        ok = False; print(name, "registry lookup raised", type(e).__name__, e)
+    if not ok: print("REPRODUCED"); sys.exit(1)
+    sys.exit(0)
 if kind == "value":
     v = si(name); tol = sp.Float(spec["rel_tol"], 40)
     ok = any(abs(v - sp.Float(r, 40)) <= tol * abs(sp.Float(r, 40)) for r in spec["refs"])
@@ -122,6 +134,17 @@ def run(ctx):
             ctx.violation(f"C20:dim:{name}", f"dimension exponents {dv} != reference {spec['dim']}", rep("dim", name, spec))
         else:
             ctx.ob(f"dim:{name}", "inconclusive", "unknown")
+        # (a') the same dimension and scale through the unit system's registry (what SymPy's own convert_to and get_quantity_dimension read)
+        try:
+            from sympy.physics.units.systems.si import SI
+            rd = dim_vector(SI.get_quantity_dimension(obj))
+            rs = SI.get_quantity_scale_factor(obj)
+            if [str(x) for x in rd] == [str(x) for x in dv] and rs == obj.scale_factor:
+                ctx.ob(f"registry:{name}", "discharged", nontrivial=False)
+            else:
+                ctx.violation(f"C20:registry:{name}", f"SI registry gives dimension exponents {rd} / scale {rs} for {name}; the constant itself has {dv} / {obj.scale_factor}", rep("registry", name, spec))
+        except Exception as e:
+            ctx.violation(f"C20:registry:{name}", f"SI registry cannot give the dimension of {name}: {type(e).__name__}: {str(e)[:100]}", rep("registry", name, spec))
         # (b) value
         enc = Enc()
         try:
